@@ -313,6 +313,29 @@ def check_case(ctx, case):
             return "order"
         acc.violation("text-content", "text-differs:%s/%s" % (cls(got, lines), case["carrier"]), case, observed=got, expected=lines,
                       what="character data of the generated text %r differs from the author's text %r" % (got, lines))
+    # ---- the block of lines: anchored at the location and 'moved inward (outward ...)', so seen from the anchor all lines lie
+    # on one side: away from the edge the text sits on when inside, away from the shape when outside
+    spans = t.find_all("tspan")
+    base = (case["loc"] or "c").split(":")[0]
+    if len(spans) >= 2:
+        attr = "dx" if case["vertical"] else "dy"
+        try:
+            offs = [float((s_.attrs.get(attr) or "0").replace("em", "")) for s_ in spans]
+        except ValueError:
+            offs = None
+        comp = [c_ for c_ in base if c_ in ("lr" if case["vertical"] else "tb")]
+        if offs is not None and len(comp) == 1:
+            cum, tot = [], 0.0
+            for o_ in offs:
+                tot += o_
+                cum.append(round(tot, 6))
+            start_edge = comp[0] in "tl"
+            want_nonneg = (start_edge != bool(case["outside"]))
+            ok_side = all(c_ >= -1e-6 for c_ in cum) if want_nonneg else all(c_ <= 1e-6 for c_ in cum)
+            if not ok_side:
+                acc.violation("block-direction", "lines-cross-the-anchored-edge:%s/%s%s" % (comp[0], "outside" if case["outside"] else "inside", "/vertical" if case["vertical"] else ""),
+                              case, observed=dict(attr=attr, offsets=offs, cumulative=cum), expected="all lines on the %s side of the anchor" % ("positive" if want_nonneg else "negative"),
+                              what="multi-line text at text-loc %s: the lines extend across the edge the text is anchored to (cumulative %s offsets %s)" % (base, attr, cum))
     # ---- anchor and classes
     ex, ey, eclasses = expected_anchor(case)
     try:
